@@ -60,11 +60,12 @@ func stamp() int64 { return atomic.AddInt64(&clock, 1) }
 // ---------- case description ----------
 
 type connSpec struct {
-	First   string `json:"first"`   // first-message class (what the client sends first / instead of the auth message)
-	Verdict string `json:"verdict"` // behaviour of the checker function
-	Timing  string `json:"timing"`  // pre: bytes written before ServeConn; post: after the accept hook blocks; split: half and half
-	After   string `json:"after"`   // hold | close | closewrite: what the client does after its last byte
-	Chunk   string `json:"chunk"`   // server-side read chunking
+	First   string `json:"first"`           // first-message class (what the client sends first / instead of the auth message)
+	Verdict string `json:"verdict"`         // behaviour of the checker function
+	Timing  string `json:"timing"`          // pre: bytes written before ServeConn; post: after the accept hook blocks; split: half and half
+	After   string `json:"after"`           // hold | close | closewrite: what the client does after its last byte
+	Chunk   string `json:"chunk"`           // server-side read chunking
+	Early   string `json:"early,omitempty"` // what another server goroutine does on the session while its exchange is still running: push | asynccall | call | all
 	Seed    int64  `json:"seed"`
 }
 
@@ -84,9 +85,14 @@ var firstClasses = []string{
 }
 
 var verdictClasses = []string{"token", "accept-any", "reject-all", "panic-before", "panic-after", "double-receive", "no-receive-reject",
-	"setid-then-reject", "setid-then-accept", "setid-accept-unwritable"}
+	"setid-then-reject", "setid-then-accept", "setid-accept-unwritable",
+	// the session is reachable (named) while its exchange is still running, and another goroutine writes to it:
+	"park-reject", "park-accept", "park-accept-unwritable", // named by the checker after the receive, parked on a harness gate, then the verdict
+	"prenamed-reject", "prenamed-token"} // named by a PostAccept plug-in placed before the checker (reachable even while the checker waits for bytes)
+
 var timingClasses = []string{"pre", "post", "split"}
 var afterClasses = []string{"hold", "close", "closewrite"}
+var earlyKinds = []string{"push", "push", "asynccall", "call", "all"}
 var chunkClasses = []string{"whole", "one", "rand"}
 
 // ---------- records ----------
@@ -105,6 +111,10 @@ type connRec struct {
 	checkerCalls   int
 	checkerRet     int64
 	assignedID     string
+	gate           chan struct{} // released by the harness: the parked checker gives its verdict
+	gateTimedOut   bool
+	parked         bool
+	early          []*earlyOp
 	verdictReached bool
 	verdictOK      bool
 	panicked       bool
@@ -193,7 +203,7 @@ func checker(sess auth.Session, fn auth.RecvOnce) (ret interface{}, stat *erpc.S
 	if stat = fn(&info); !stat.OK() {
 		return nil, stat
 	}
-	if strings.HasPrefix(mode, "setid-") {
+	if strings.HasPrefix(mode, "setid-") || strings.HasPrefix(mode, "park-") {
 		// a checker naming the session after the presented identity (unique per connection: id takeover is C07's business)
 		id := "user:" + info + "@" + rec.addr
 		sess.SetID(id)
@@ -202,6 +212,23 @@ func checker(sess auth.Session, fn auth.RecvOnce) (ret interface{}, stat *erpc.S
 		rec.mu.Unlock()
 		if mode == "setid-then-reject" {
 			return nil, erpc.NewStatus(403, "auth fail", "named, then refused")
+		}
+	}
+	if strings.HasPrefix(mode, "park-") || mode == "prenamed-reject" {
+		// "the credentials are being verified": parked until the harness has let another goroutine use the session
+		rec.mu.Lock()
+		rec.parked = true
+		gate := rec.gate
+		rec.mu.Unlock()
+		select {
+		case <-gate:
+		case <-time.After(3 * watchdog):
+			rec.mu.Lock()
+			rec.gateTimedOut = true
+			rec.mu.Unlock()
+		}
+		if mode == "park-reject" || mode == "prenamed-reject" {
+			return nil, erpc.NewStatus(403, "auth fail", "verified for a while, then refused")
 		}
 	}
 	switch mode {
@@ -230,6 +257,125 @@ func AppCall(ctx erpc.CallCtx, arg *string) (string, *erpc.Status) {
 func AppPush(ctx erpc.PushCtx, arg *string) *erpc.Status {
 	noteHandler(ctx.IP(), "push")
 	return nil
+}
+
+// namer is "a PostAccept plug-in before the checker" that names the session before any verdict.
+type namer struct{}
+
+func (namer) Name() string { return "c16-namer" }
+func (namer) PostAccept(sess erpc.PreSession) *erpc.Status {
+	rec := lookup(sess.RemoteAddr().String())
+	rec.mu.Lock()
+	pre := strings.HasPrefix(rec.spec.Verdict, "prenamed-")
+	rec.mu.Unlock()
+	if pre {
+		id := "pre:" + rec.addr
+		sess.SetID(id)
+		rec.mu.Lock()
+		rec.assignedID = id
+		rec.mu.Unlock()
+	}
+	return nil
+}
+
+// earlyOp is one Push / AsyncCall / Call issued by another goroutine of the server on a session found through
+// the index while that session's authentication exchange was still running.
+type earlyOp struct {
+	Op     string `json:"op"`
+	Via    string `json:"found_via"`
+	At     string `json:"at"`
+	Status string `json:"status"`
+	ok     bool
+	done   int32
+	cmd    erpc.CallCmd
+}
+
+// refused tells whether the operation has completed with a non-OK status by now.
+func (e *earlyOp) refused() bool {
+	switch e.Op {
+	case "push":
+		return !e.ok
+	case "asynccall":
+		select {
+		case <-e.cmd.Done():
+			_, st := e.cmd.Reply()
+			e.Status = st.String()
+			return !st.OK()
+		default:
+			e.Status = "pending: written, waiting for a reply"
+			return false
+		}
+	}
+	if atomic.LoadInt32(&e.done) == 0 {
+		e.Status = "pending: Call has not returned"
+		return false
+	}
+	return !e.ok
+}
+
+// earlyOps looks the named, not yet judged sessions up (GetSession and RangeSession) and writes to them.
+func earlyOps(srv erpc.Peer, recs []*connRec, at string) {
+	for _, rec := range recs {
+		rec.mu.Lock()
+		id, judged, kind := rec.assignedID, rec.verdictReached, rec.spec.Early
+		rec.mu.Unlock()
+		if id == "" || judged || kind == "" {
+			continue
+		}
+		found := map[string]erpc.Session{}
+		if s, ok := srv.GetSession(id); ok && s != nil {
+			found["GetSession"] = s
+		}
+		srv.RangeSession(func(s erpc.Session) bool {
+			if s.RemoteAddr().String() == rec.addr {
+				found["RangeSession"] = s
+				return false
+			}
+			return true
+		})
+		core.Add("early_lookups", 1)
+		if len(found) == 0 {
+			core.Add("early_lookups_not_found", 1)
+			continue
+		}
+		for _, via := range []string{"GetSession", "RangeSession"} {
+			sess := found[via]
+			if sess == nil {
+				continue
+			}
+			if kind == "push" || kind == "all" {
+				st := sess.Push("/c16/notice", "for-members-only")
+				e := &earlyOp{Op: "push", Via: via, At: at, ok: st.OK(), Status: st.String()}
+				rec.mu.Lock()
+				rec.early = append(rec.early, e)
+				rec.mu.Unlock()
+				core.Add("early_pushes", 1)
+			}
+			if kind == "asynccall" || kind == "all" {
+				e := &earlyOp{Op: "asynccall", Via: via, At: at}
+				e.cmd = sess.AsyncCall("/c16/ask", "are-you-there", new(string), make(chan erpc.CallCmd, 1))
+				rec.mu.Lock()
+				rec.early = append(rec.early, e)
+				rec.mu.Unlock()
+				core.Add("early_asynccalls", 1)
+			}
+			if kind == "call" || kind == "all" {
+				e := &earlyOp{Op: "call", Via: via, At: at}
+				rec.mu.Lock()
+				rec.early = append(rec.early, e)
+				rec.mu.Unlock()
+				core.Add("early_calls", 1)
+				go func(sess erpc.Session, rec *connRec, e *earlyOp) { // may never return if the call is written and nobody answers: never waited for
+					var res string
+					_, st := sess.Call("/c16/ask", "are-you-there", &res).Reply()
+					rec.mu.Lock()
+					e.ok, e.Status = st.OK(), st.String()
+					rec.mu.Unlock()
+					atomic.StoreInt32(&e.done, 1)
+				}(sess, rec, e)
+			}
+		}
+	}
 }
 
 type recorder struct{}
@@ -488,7 +634,7 @@ func describe(rec *connRec, fs []outFrame, tail int) map[string]interface{} {
 	defer rec.mu.Unlock()
 	d := map[string]interface{}{
 		"spec": rec.spec, "client_bytes": len(rec.script), "checker_calls": rec.checkerCalls, "verdict_reached": rec.verdictReached,
-		"verdict_ok": rec.verdictOK, "id_assigned_by_checker": rec.assignedID, "checker_panicked": rec.panicked, "checker_return_stamp": rec.checkerRet,
+		"verdict_ok": rec.verdictOK, "id_assigned_by_checker": rec.assignedID, "early_operations": rec.early, "checker_panicked": rec.panicked, "checker_return_stamp": rec.checkerRet,
 		"handlers": rec.handlers, "hooks": rec.hooks, "server_wrote_bytes": len(rec.out), "server_frames": fs, "unparsable_tail_bytes": tail,
 		"serveconn_returned": atomic.LoadInt32(&rec.served) == 1, "server_end_closed": rec.cb.IsClosed(),
 	}
@@ -501,7 +647,7 @@ func describe(rec *connRec, fs []outFrame, tail int) map[string]interface{} {
 func runCase(id string, c caseDesc) {
 	cs := &caseState{conns: map[string]*connRec{}}
 	cur.Store(cs)
-	srv := erpc.NewPeer(erpc.PeerConfig{}, recorder{}, auth.NewCheckerPlugin(checker, erpc.WithBodyCodec('s')))
+	srv := erpc.NewPeer(erpc.PeerConfig{}, recorder{}, namer{}, auth.NewCheckerPlugin(checker, erpc.WithBodyCodec('s')))
 	rt := routes{call: srv.RouteCallFunc(AppCall), push: srv.RoutePushFunc(AppPush)}
 	srv.SetUnknownCall(func(ctx erpc.UnknownCallCtx) (interface{}, *erpc.Status) {
 		noteHandler(ctx.IP(), "unknown-call")
@@ -516,14 +662,22 @@ func runCase(id string, c caseDesc) {
 	defer func() {
 		for _, rec := range recs {
 			rec.ca.Close()
+			rec.release()
 		}
-		srv.Close()
+		// bounded: on a tree that lets an early call through, a refused session can hang in Close (it waits for that call)
+		closed := make(chan struct{})
+		go func() { srv.Close(); close(closed) }()
+		select {
+		case <-closed:
+		case <-time.After(5 * time.Second):
+			fmt.Fprintln(os.Stderr, "c16: peer.Close did not return; leaving the peer behind")
+		}
 	}()
 	// phase 1: connections are created; "pre" bytes are in the pipe before the server looks at it
 	for _, sp := range c.Conns {
 		r := core.NewRand(sp.Seed, 16)
 		ca, cb := memconn.NewPair()
-		rec := &connRec{spec: sp, addr: ca.LocalAddr().String(), ca: ca, cb: cb}
+		rec := &connRec{spec: sp, addr: ca.LocalAddr().String(), ca: ca, cb: cb, gate: make(chan struct{})}
 		rec.script = script(sp.First, rt, r)
 		if f := chunker(sp.Chunk, sp.Seed); f != nil {
 			cb.SetReadChunk(f)
@@ -574,6 +728,8 @@ func runCase(id string, c caseDesc) {
 			core.Result(core.R{ID: id, Verdict: core.Inconclusive, What: "no quiescence before the late client bytes"})
 			return
 		}
+		// sessions already named (by the plug-in before the checker) are reachable while their checker waits for bytes
+		earlyOps(srv, recs, "at the first quiescent point (before the late client bytes)")
 		for i, rec := range recs {
 			if len(rest[i]) > 0 {
 				rec.ca.Write(rest[i])
@@ -584,6 +740,34 @@ func runCase(id string, c caseDesc) {
 	if !quiet() {
 		core.Result(core.R{ID: id, Verdict: core.Inconclusive, What: "no quiescence after the scripts"})
 		return
+	}
+	early := false
+	for _, rec := range recs {
+		early = early || rec.spec.Early != ""
+	}
+	if early {
+		// the parked checkers have named their sessions; another goroutine of the server finds them and writes to them
+		earlyOps(srv, recs, "at the quiescent point after the scripts (parked checkers are verifying)")
+		if !quiet() {
+			core.Result(core.R{ID: id, Verdict: core.Inconclusive, What: "no quiescence after the early writes"})
+			return
+		}
+		for _, rec := range recs {
+			rec.release() // the verdicts
+		}
+		if !quiet() {
+			core.Result(core.R{ID: id, Verdict: core.Inconclusive, What: "no quiescence after the verdicts"})
+			return
+		}
+	}
+	for _, rec := range recs {
+		rec.mu.Lock()
+		to := rec.gateTimedOut
+		rec.mu.Unlock()
+		if to {
+			core.Result(core.R{ID: id, Verdict: core.Inconclusive, What: "a parked checker was not released (watchdog)"})
+			return
+		}
 	}
 	var finds []finding
 	finds = append(finds, evaluate(srv, cs, recs, false)...)
@@ -597,6 +781,7 @@ func runCase(id string, c caseDesc) {
 	// phase 2: every client goes away; whatever was still waiting for bytes is rejected now
 	for _, rec := range recs {
 		rec.ca.Close()
+		rec.release()
 	}
 	if !quiet() {
 		core.Result(core.R{ID: id, Verdict: core.Inconclusive, What: "no quiescence after the clients closed"})
@@ -651,7 +836,11 @@ func runCase(id string, c caseDesc) {
 	k := 0
 	for _, f := range finds {
 		rec := recs[f.conn]
-		fp := fmt.Sprintf("%s/%s/%s/%s", *prop, rec.spec.First, rec.spec.Verdict, f.symptom)
+		vclass := rec.spec.Verdict
+		if rec.spec.Early != "" {
+			vclass += "+" + rec.spec.Early
+		}
+		fp := fmt.Sprintf("%s/%s/%s/%s", *prop, rec.spec.First, vclass, f.symptom)
 		if seen[fp] {
 			continue
 		}
@@ -667,6 +856,19 @@ func runCase(id string, c caseDesc) {
 		desc := caseDesc{Class: c.Class, Conns: []connSpec{rec.spec}}
 		core.Result(core.R{ID: rid, Verdict: core.Violated, FP: fp, What: fmt.Sprintf("%s / checker %s: %s", rec.spec.First, rec.spec.Verdict, f.detail),
 			Witness: describe(rec, fs, tail), Desc: desc})
+	}
+}
+
+// release opens the gate of a parked checker (idempotent).
+func (rec *connRec) release() {
+	rec.mu.Lock()
+	defer rec.mu.Unlock()
+	if rec.gate != nil {
+		select {
+		case <-rec.gate:
+		default:
+			close(rec.gate)
+		}
 	}
 }
 
@@ -692,7 +894,7 @@ func evaluate(srv erpc.Peer, cs *caseState, recs []*connRec, final bool) []findi
 		listedByAddr[a] = append(listedByAddr[a], s.ID())
 		return true
 	})
-	openAccepted, listedEndedAccepted, firstFailed := 0, 0, -1
+	openAccepted, listedEndedAccepted, firstFailed, pendingNamed := 0, 0, -1, 0
 	for i, rec := range recs {
 		rec.mu.Lock()
 		served := atomic.LoadInt32(&rec.served) == 1
@@ -720,8 +922,27 @@ func evaluate(srv erpc.Peer, cs *caseState, recs []*connRec, final bool) []findi
 			if len(handlers) > 0 {
 				add("handler-ran", fmt.Sprintf("%d handler invocation(s) (%s first) on a connection whose authentication did not succeed", len(handlers), handlers[0].Name))
 			}
-			if len(hooks) > 0 {
-				add("hook-ran", fmt.Sprintf("%d per-message hook invocation(s) (%s first) on a connection whose authentication did not succeed", len(hooks), hooks[0].Name))
+			for _, grp := range []struct{ symptom, prefix string }{{"prewrite-hook-ran", "PreWrite"}, {"postwrite-hook-ran", "PostWrite"}, {"hook-ran", ""}} {
+				var hs []evt
+				for _, h := range hooks {
+					isWrite := strings.HasPrefix(h.Name, "PreWrite") || strings.HasPrefix(h.Name, "PostWrite")
+					if (grp.prefix != "" && strings.HasPrefix(h.Name, grp.prefix)) || (grp.prefix == "" && !isWrite) {
+						hs = append(hs, h)
+					}
+				}
+				if len(hs) > 0 {
+					add(grp.symptom, fmt.Sprintf("%d per-message hook invocation(s) (%s first) on a connection whose authentication did not succeed", len(hs), hs[0].Name))
+				}
+			}
+			if refused || final {
+				rec.mu.Lock()
+				for _, e := range rec.early {
+					if !e.refused() {
+						add("early-write-not-refused", fmt.Sprintf("%s on the session (found with %s %s) was not refused: %s", e.Op, e.Via, e.At, e.Status))
+						break
+					}
+				}
+				rec.mu.Unlock()
 			}
 			if (judged || refused || final) && !rec.cb.IsClosed() {
 				add("not-closed", "the server has not closed the connection at quiescence although its authentication did not succeed")
@@ -740,8 +961,12 @@ func evaluate(srv erpc.Peer, cs *caseState, recs []*connRec, final bool) []findi
 				if ids := listedByAddr[rec.addr]; len(ids) > 0 {
 					add("listed", fmt.Sprintf("RangeSession lists a session (id %q) for the refused connection; CountSession=%d", ids[0], srv.CountSession()))
 				}
-			} else if ids := listedByAddr[rec.addr]; len(ids) > 0 && (assigned == "" || ids[0] != assigned) {
-				add("listed", fmt.Sprintf("RangeSession lists a session (id %q) for a connection whose exchange has not completed", ids[0]))
+			} else if ids := listedByAddr[rec.addr]; len(ids) > 0 {
+				if assigned == "" || ids[0] != assigned {
+					add("listed", fmt.Sprintf("RangeSession lists a session (id %q) for a connection whose exchange has not completed", ids[0]))
+				} else {
+					pendingNamed++ // still in its exchange, under the name its checker / a plug-in gave it: not refused yet
+				}
 			}
 			fs, tail := parseOut(outb)
 			switch {
@@ -765,6 +990,12 @@ func evaluate(srv erpc.Peer, cs *caseState, recs []*connRec, final bool) []findi
 		}
 		for _, h := range hooks {
 			if h.At < ret {
+				if strings.HasSuffix(h.Name, "WritePush") || strings.HasSuffix(h.Name, "WriteCall") {
+					// the write hooks of the harness's own early Push / Call on a connection that was accepted later:
+					// recorded, not asserted
+					core.Add("early_write_hooks_on_later_accepted", 1)
+					continue
+				}
 				add("handled-before-verdict", fmt.Sprintf("hook %s ran at logical time %d, the checker returned at %d", h.Name, h.At, ret))
 				break
 			}
@@ -789,13 +1020,13 @@ func evaluate(srv erpc.Peer, cs *caseState, recs []*connRec, final bool) []findi
 	for _, f := range out {
 		attributed = attributed || f.symptom == "listed"
 	}
-	if n := srv.CountSession(); !attributed && (n > openAccepted+listedEndedAccepted || listedTotal > openAccepted+listedEndedAccepted) {
+	if n := srv.CountSession(); !attributed && (n > openAccepted+listedEndedAccepted+pendingNamed || listedTotal > openAccepted+listedEndedAccepted+pendingNamed) {
 		// a surplus that could not be attributed to one connection by address or id
 		i := firstFailed
 		if i < 0 {
 			i = 0
 		}
-		out = append(out, finding{i, "listed", fmt.Sprintf("CountSession reports %d sessions (%d enumerated); %d accepted connections are open and %d ended accepted ones are still listed", n, listedTotal, openAccepted, listedEndedAccepted)})
+		out = append(out, finding{i, "listed", fmt.Sprintf("CountSession reports %d sessions (%d enumerated); %d accepted connections are open, %d ended accepted ones are still listed, %d named ones are still in their exchange", n, listedTotal, openAccepted, listedEndedAccepted, pendingNamed)})
 	}
 	return out
 }
@@ -807,10 +1038,13 @@ func genConn(r *core.Rand, first, verdict string) connSpec {
 	sp.Timing = timingClasses[r.Intn(len(timingClasses))]
 	sp.After = afterClasses[r.Intn(len(afterClasses))]
 	sp.Chunk = chunkClasses[r.Intn(len(chunkClasses))]
-	if verdict == "setid-accept-unwritable" {
+	if strings.HasPrefix(verdict, "park-") || strings.HasPrefix(verdict, "prenamed-") {
+		sp.Early = earlyKinds[r.Intn(len(earlyKinds))]
+	}
+	if verdict == "setid-accept-unwritable" || verdict == "park-accept-unwritable" {
 		sp.After = "close" // the client is gone before the AUTH_REPLY can be written
 	}
-	if verdict == "setid-then-accept" && sp.After == "close" {
+	if (verdict == "setid-then-accept" || verdict == "park-accept") && sp.After == "close" {
 		sp.After = "hold" // the control: named and let in, the reply is deliverable
 	}
 	return sp
@@ -865,6 +1099,15 @@ func main() {
 		}
 	}
 	for i := 0; i < extra; i++ {
+		if i%6 == 4 { // sessions reachable during their exchange, written to by another goroutine before the verdict
+			v := r.Pick("park-reject", "park-reject", "park-accept", "park-accept-unwritable", "prenamed-reject", "prenamed-token")
+			f := r.Pick("auth-good", "auth-bad", "auth-good+calls", "two-auths")
+			if strings.HasPrefix(v, "prenamed-") && r.Intn(2) == 0 {
+				f = firstClasses[r.Intn(len(firstClasses))]
+			}
+			conns = append(conns, genConn(r, f, v))
+			continue
+		}
 		if i%6 == 1 { // checkers that name the session during the exchange, with clients that present an identity
 			conns = append(conns, genConn(r, r.Pick("auth-good", "auth-good+calls", "auth-bad", "two-auths"), r.Pick("setid-then-reject", "setid-accept-unwritable", "setid-then-accept")))
 			continue
